@@ -72,7 +72,8 @@ int main(int argc,char **argv){
     est("E0",&vd);
     long N=0,total=0,lastg=-1,npk=0,pos=0; int mono=1,lasteos=0;
     for(int k=0;k<=nch;k++){
-      long n=(k<nch)?chunks[k]:0;
+      /* end of input: wrote(0); lib/block.c documents "call with val<=0 to set eof", so every fifth case signals it with -1 */
+      long n=(k<nch)?chunks[k]:((seed%5==0)?-1:0);
       if(n>0){
         float **buf=vorbis_analysis_buffer(&vd,(int)n);
         printf("B %ld | %d %d\n",n,vd.pcm_current,vd.pcm_storage);
